@@ -42,7 +42,12 @@ func c16SeqCheck(ctx *vfCtx, c c16SeqCase) {
 	a, b, cc := "a-"+tag+".c16seq.example", "b-"+tag+".c16seq.example", "c-"+tag+".c16seq.example"
 	var mu sync.Mutex
 	var log []string
-	mk := func(which string) *httptest.Server {
+	mk := func(which string) (out *httptest.Server) {
+		defer func() {
+			if r := recover(); r != nil { // (no loopback interface to listen on: the environment's matter)
+				out = nil
+			}
+		}()
 		s := httptest.NewUnstartedServer(http.HandlerFunc(func(rw http.ResponseWriter, req *http.Request) {
 			mu.Lock()
 			log = append(log, which+" Host="+req.Host)
@@ -55,8 +60,16 @@ func c16SeqCheck(ctx *vfCtx, c c16SeqCase) {
 		return s
 	}
 	s1, s2 := mk("listener-1"), mk("listener-2")
-	defer s1.Close()
-	defer s2.Close()
+	if s1 != nil {
+		defer s1.Close()
+	}
+	if s2 != nil {
+		defer s2.Close()
+	}
+	if s1 == nil || s2 == nil {
+		ctx.Unjudged("no listener on the loopback interface")
+		return
+	}
 	port := func(s *httptest.Server) int {
 		_, p, _ := net.SplitHostPort(s.Listener.Addr().String())
 		n, _ := strconv.Atoi(p)
